@@ -64,3 +64,35 @@ Definition sender_at (a f : N) : sender :=
 Definition c08s_ok (c : c08s_case) : bool :=
   let '(a, f, ops, obs) := c in
   beq_list (beq_list N.eqb) (srun_obs (sender_at a f) ops) obs.
+
+(* ---- c08o: Reliable.sendOneFrame (Model/SendOne.v).  A case is a history of calls on one rig and, per call,
+   what the real code did: [sent; priority; ackNo stamped; ACK flag; frameNo] (zeros when nothing was handed to
+   the muxer) ++ [lastAckSent; lastFrameSent; unsend] *)
+From Hop Require Import SendOne.
+Definition SC (ack no dlen flags : N) : so_call :=
+  {| sc_ack := ack; sc_no := no; sc_dlen := dlen; sc_ackflag := N.testbit flags 0; sc_fin := N.testbit flags 1;
+     sc_resp := N.testbit flags 2; sc_retx := N.testbit flags 3 |}.
+Definition b2n_so (b : bool) : N := if b then 1 else 0.
+Fixpoint so_obs (st : so_state) (cs : list so_call) : list (list N) :=
+  match cs with
+  | [] => []
+  | c :: rest =>
+      let '(st1, o) := send_one_frame st c in
+      (match o with
+       | Some (prio, ack, ackflag, no) => [1; b2n_so prio; ack; b2n_so ackflag; no]
+       | None => [0; 0; 0; 0; 0]
+       end ++ [so_last_ack st1; so_last_frame st1; so_unsend st1]) :: so_obs st1 rest
+  end.
+Definition c08o_case := (list so_call * list (list N))%type.
+Definition c08o_ok (c : c08o_case) : bool :=
+  let '(cs, obs) := c in beq_list (beq_list N.eqb) (so_obs so_init cs) obs.
+
+(* ---- c08w: windowSize = uint16(cwndSize) after recvAck's lower clamp, for an injected cwndSize = m * 2^e
+   (also beyond 65536, where the conversion wraps), and what framesToSend then answers with two unsent frames
+   buffered (timer case with rtoCounter = 0; new data with unacked = 0) *)
+From Hop Require Import TubesFloat.
+Definition c08w_case := (Z * Z * N * Z * Z)%type.
+Definition c08w_ok (c : c08w_case) : bool :=
+  let '(m, e, w, rto, nw) := c in
+  let w' := window_after_ack (m, e) in
+  N.eqb w' w && Z.eqb rto (if (0 <? Z.of_N w')%Z then 1%Z else 0%Z) && Z.eqb nw (Z.min (Z.of_N w') 2%Z).
